@@ -1,8 +1,519 @@
 package main
 
-import "fmt"
+// `govc check` / `govc claim`: property-level driver, claimed-set bookkeeping, evidence, violation reporting.
 
-func cmdCheck(args []string)    { fmt.Println("TODO") }
-func cmdClaim(args []string)    { fmt.Println("TODO") }
-func cmdReplay(args []string)   { fmt.Println("TODO") }
-func cmdSelftest(args []string) { fmt.Println("TODO") }
+import (
+	"encoding/json"
+	"flag"
+	"fmt"
+	"os"
+	"path/filepath"
+	"sort"
+	"strconv"
+	"strings"
+	"time"
+)
+
+var verifRoot = envOr("GOVC_ROOT", "/verif")
+
+type claimFile struct {
+	Property string   `json:"property"`
+	Clauses  []string `json:"clauses"`
+	Note     string   `json:"note"`
+}
+
+type knownFinding struct {
+	Property string `json:"property"`
+	Clause   string `json:"clause"`
+	What     string `json:"what"`
+	Status   string `json:"status"` // "open" | "fixed: <commit>"
+}
+
+func loadClaims(prop string) (*claimFile, error) {
+	b, err := os.ReadFile(filepath.Join(verifRoot, "claims", prop+".json"))
+	if err != nil {
+		return nil, err
+	}
+	var c claimFile
+	if err := json.Unmarshal(b, &c); err != nil {
+		return nil, err
+	}
+	return &c, nil
+}
+
+func loadKnownFindings() []knownFinding {
+	b, err := os.ReadFile(filepath.Join(verifRoot, "known_findings.json"))
+	if err != nil {
+		return nil
+	}
+	var k []knownFinding
+	json.Unmarshal(b, &k)
+	return k
+}
+
+// clauseServes: does an obligation belong to property prop?
+func clauseServes(eng *Engine, o *Obligation, fr *funcResult, prop string) bool {
+	ct := eng.specs.Contracts[fr.Key]
+	if ct == nil {
+		return false
+	}
+	fnServes := false
+	for _, s := range ct.Serves {
+		if s == prop {
+			fnServes = true
+		}
+	}
+	// tagged ensures clauses belong to their tags only
+	if o.Kind == "postcondition" {
+		// clause name ends with /ensuresN
+		i := strings.LastIndex(o.Clause, "/ensures")
+		if i >= 0 {
+			n, _ := strconv.Atoi(o.Clause[i+8:])
+			if n >= 1 && n <= len(ct.Ensures) {
+				tags := ct.Ensures[n-1].Tags
+				if len(tags) > 0 {
+					for _, t := range tags {
+						if t == prop {
+							return true
+						}
+					}
+					return false
+				}
+			}
+		}
+	}
+	return fnServes
+}
+
+func functionsServing(eng *Engine, prop string) []string {
+	var keys []string
+	for _, k := range eng.specs.Order {
+		ct := eng.specs.Contracts[k]
+		if ct.Kind != "func" || ct.Trusted {
+			continue
+		}
+		ok := false
+		for _, s := range ct.Serves {
+			if s == prop {
+				ok = true
+			}
+		}
+		for _, en := range ct.Ensures {
+			for _, t := range en.Tags {
+				if t == prop {
+					ok = true
+				}
+			}
+		}
+		if ok {
+			keys = append(keys, k)
+		}
+	}
+	return keys
+}
+
+type clauseStatus struct {
+	Name       string
+	Func       string
+	Instances  int
+	Discharged int
+	Worst      *Obligation
+	Src        string
+	Kind       string
+}
+
+type propRun struct {
+	prop     string
+	funcs    []*funcResult
+	clauses  map[string]*clauseStatus
+	order    []string
+	lemmaRes []*lemmaResult
+	wall     float64
+}
+
+func runProperty(eng *Engine, prop string, opts solveOpts) *propRun {
+	t0 := time.Now()
+	pr := &propRun{prop: prop, clauses: map[string]*clauseStatus{}}
+	keys := functionsServing(eng, prop)
+	for _, k := range keys {
+		fr := verifyOne(eng, k, opts)
+		pr.funcs = append(pr.funcs, fr)
+		broken := fr.Vacuity == "vacuous" || len(fr.Unsupported) > 0
+		for _, o := range fr.Obls {
+			if !clauseServes(eng, o, fr, prop) {
+				continue
+			}
+			cs := pr.clauses[o.Clause]
+			if cs == nil {
+				cs = &clauseStatus{Name: o.Clause, Func: fr.Key, Src: o.Src, Kind: o.Kind}
+				pr.clauses[o.Clause] = cs
+				pr.order = append(pr.order, o.Clause)
+			}
+			cs.Instances++
+			if o.Result == "unsat" && !broken {
+				cs.Discharged++
+			} else if cs.Worst == nil || (o.Result == "sat" && cs.Worst.Result != "sat") {
+				cs.Worst = o
+			}
+		}
+		if broken {
+			// a function whose contract is contradictory or which left the supported subset proves nothing
+			name := fr.Key + "/verifiable"
+			o := &Obligation{Name: name, Clause: name, Kind: "verifiable", Func: fr.Key, Result: "error",
+				Output: "vacuity=" + fr.Vacuity + "\nunsupported:\n" + strings.Join(fr.Unsupported, "\n")}
+			pr.clauses[name] = &clauseStatus{Name: name, Func: fr.Key, Instances: 1, Worst: o, Kind: "verifiable"}
+			pr.order = append(pr.order, name)
+		} else {
+			name := fr.Key + "/verifiable"
+			pr.clauses[name] = &clauseStatus{Name: name, Func: fr.Key, Instances: 1, Discharged: 1, Kind: "verifiable"}
+			pr.order = append(pr.order, name)
+		}
+	}
+	// lemmas serving the property
+	for _, lm := range eng.specs.Lemmas {
+		serves := false
+		for _, s := range lm.Serves {
+			if s == prop {
+				serves = true
+			}
+		}
+		if !serves {
+			continue
+		}
+		lr := verifyLemma(eng, lm, opts)
+		pr.lemmaRes = append(pr.lemmaRes, lr)
+		for _, o := range lr.Obls {
+			cs := pr.clauses[o.Clause]
+			if cs == nil {
+				cs = &clauseStatus{Name: o.Clause, Func: "lemma " + lm.Name, Src: o.Src, Kind: "lemma"}
+				pr.clauses[o.Clause] = cs
+				pr.order = append(pr.order, o.Clause)
+			}
+			cs.Instances++
+			if o.Result == "unsat" {
+				cs.Discharged++
+			} else if cs.Worst == nil {
+				cs.Worst = o
+			}
+		}
+	}
+	pr.wall = time.Since(t0).Seconds()
+	return pr
+}
+
+func cmdClaim(args []string) {
+	fs := flag.NewFlagSet("claim", flag.ExitOnError)
+	prop := fs.String("p", "", "property id or 'all'")
+	repo := fs.String("repo", envOr("GOVC_REPO", "/repo"), "repository")
+	fs.Parse(args)
+	eng, err := loadEngine(*repo)
+	if err != nil {
+		fmt.Fprintln(os.Stderr, "load:", err)
+		os.Exit(2)
+	}
+	props := []string{*prop}
+	if *prop == "all" {
+		props = allProps(eng)
+	}
+	dir := mkScratch()
+	defer os.RemoveAll(dir)
+	os.MkdirAll(filepath.Join(verifRoot, "claims"), 0o755)
+	for _, p := range props {
+		// claim only what discharges comfortably inside the quick budget
+		opts := solveOpts{dir: dir, quickT: 3, slowT: 8, workers: 16}
+		pr := runProperty(eng, p, opts)
+		var cl []string
+		nskip := 0
+		for _, name := range pr.order {
+			cs := pr.clauses[name]
+			if cs.Discharged == cs.Instances {
+				cl = append(cl, name)
+			} else {
+				nskip++
+				fmt.Printf("  not claimed: %s (%d/%d) %s\n", name, cs.Discharged, cs.Instances, worstResult(cs))
+			}
+		}
+		sort.Strings(cl)
+		cf := claimFile{Property: p, Clauses: cl, Note: "clauses discharged on the unchanged tree; regenerated only by `govc claim` (never at check time)"}
+		b, _ := json.MarshalIndent(cf, "", " ")
+		os.WriteFile(filepath.Join(verifRoot, "claims", p+".json"), b, 0o644)
+		fmt.Printf("%s: %d clauses claimed, %d not claimed, %.1fs\n", p, len(cl), nskip, pr.wall)
+	}
+}
+
+func worstResult(cs *clauseStatus) string {
+	if cs.Worst == nil {
+		return ""
+	}
+	return cs.Worst.Result + " " + cs.Worst.Name
+}
+
+func allProps(eng *Engine) []string {
+	seen := map[string]bool{}
+	for _, k := range eng.specs.Order {
+		ct := eng.specs.Contracts[k]
+		for _, s := range ct.Serves {
+			seen[s] = true
+		}
+		for _, en := range ct.Ensures {
+			for _, t := range en.Tags {
+				seen[t] = true
+			}
+		}
+	}
+	for _, lm := range eng.specs.Lemmas {
+		for _, s := range lm.Serves {
+			seen[s] = true
+		}
+	}
+	var out []string
+	for k := range seen {
+		out = append(out, k)
+	}
+	sort.Strings(out)
+	return out
+}
+
+func cmdCheck(args []string) {
+	fs := flag.NewFlagSet("check", flag.ExitOnError)
+	prop := fs.String("p", "", "property id")
+	tier := fs.String("tier", envOr("VERIF_TIER", "quick"), "quick|thorough")
+	repo := fs.String("repo", envOr("GOVC_REPO", "/repo"), "repository")
+	fs.Parse(args)
+	if *prop == "" {
+		usage()
+	}
+	seed, _ := strconv.Atoi(envOr("VERIF_SEED", "0"))
+	t0 := time.Now()
+	evPath := filepath.Join(verifRoot, "evidence", *prop+".json")
+	os.MkdirAll(filepath.Dir(evPath), 0o755)
+	os.Remove(evPath)
+	fail := func(msg string) {
+		// a checker failure is not a property verdict: report loudly, exit 2
+		fmt.Fprintln(os.Stderr, "govc check: "+msg)
+		os.Exit(2)
+	}
+	claims, err := loadClaims(*prop)
+	if err != nil {
+		fail("no claims file for " + *prop + ": " + err.Error())
+	}
+	eng, err := loadEngine(*repo)
+	violations := 0
+	var vioLines []string
+	replayDir := filepath.Join(verifRoot, "replays", *prop)
+	os.MkdirAll(replayDir, 0o755)
+	if err != nil {
+		// the package no longer loads / contracts no longer resolve: every claimed clause is undecided
+		rp := filepath.Join(replayDir, "load.json")
+		writeJSON(rp, map[string]any{"property": *prop, "obligation": "load", "reason": err.Error()})
+		fmt.Printf("VIOLATION property=%s replay=%s no-failing-input-found\n", *prop, rp)
+		writeEvidence(evPath, *prop, *tier, seed, nil, claims, 0, 0, 1, time.Since(t0).Seconds(), nil)
+		os.Exit(1)
+	}
+	dir := mkScratch()
+	defer os.RemoveAll(dir)
+	opts := solveOpts{dir: dir, quickT: 5, slowT: 20, workers: 16}
+	if *tier == "thorough" {
+		opts.slowT = 60
+		opts.both = true
+	}
+	pr := runProperty(eng, *prop, opts)
+	known := loadKnownFindings()
+	claimed := map[string]bool{}
+	for _, c := range claims.Clauses {
+		claimed[c] = true
+	}
+	nObl, nDis := 0, 0
+	for _, c := range claims.Clauses {
+		cs := pr.clauses[c]
+		if cs == nil {
+			// clause vanished (function or contract removed)
+			violations++
+			rp := filepath.Join(replayDir, sanitize(c)+".json")
+			writeJSON(rp, map[string]any{"property": *prop, "obligation": c, "reason": "claimed obligation can no longer be generated from the current source"})
+			vioLines = append(vioLines, fmt.Sprintf("VIOLATION property=%s replay=%s no-failing-input-found", *prop, rp))
+			nObl++
+			continue
+		}
+		nObl += cs.Instances
+		nDis += cs.Discharged
+		if cs.Discharged != cs.Instances {
+			violations++
+			rp := filepath.Join(replayDir, sanitize(c)+".json")
+			confirmed := reportViolation(eng, *prop, cs, rp)
+			line := fmt.Sprintf("VIOLATION property=%s replay=%s", *prop, rp)
+			if !confirmed {
+				line += " no-failing-input-found"
+			}
+			vioLines = append(vioLines, line)
+		}
+	}
+	// known findings: listed obligations that still fail are reported as such, never as violations
+	for _, k := range known {
+		if k.Property != *prop || !strings.HasPrefix(k.Status, "open") {
+			continue
+		}
+		cs := pr.clauses[k.Clause]
+		if cs != nil && cs.Discharged != cs.Instances {
+			fmt.Printf("KNOWN-FINDING: property=%s %s: %s\n", *prop, k.Clause, k.What)
+		}
+	}
+	if *tier == "thorough" {
+		v2 := thoroughExtras(eng, *prop, pr)
+		violations += len(v2)
+		vioLines = append(vioLines, v2...)
+	}
+	for _, l := range vioLines {
+		fmt.Println(l)
+	}
+	writeEvidence(evPath, *prop, *tier, seed, pr, claims, nObl, nDis, violations, time.Since(t0).Seconds(), eng)
+	fmt.Printf("govc check %s (%s): %d claimed clauses, %d/%d obligations discharged, %d violation(s), %.1fs\n", *prop, *tier, len(claims.Clauses), nDis, nObl, violations, time.Since(t0).Seconds())
+	if violations > 0 {
+		os.Exit(1)
+	}
+}
+
+func writeJSON(path string, v any) {
+	b, _ := json.MarshalIndent(v, "", " ")
+	os.WriteFile(path, b, 0o644)
+}
+
+// reportViolation writes the replay file; returns true when a counterexample was replayed on the real code.
+func reportViolation(eng *Engine, prop string, cs *clauseStatus, path string) bool {
+	o := cs.Worst
+	rec := map[string]any{"property": prop, "obligation": cs.Name, "function": cs.Func, "kind": cs.Kind, "clause_source": cs.Src}
+	if o != nil {
+		rec["failed_instance"] = o.Name
+		rec["position"] = o.Pos
+		rec["solver_result"] = o.Result
+		rec["backend"] = o.Backend
+		out := o.Output
+		if len(out) > 20000 {
+			out = out[:20000] + "\n...[truncated]"
+		}
+		rec["solver_output"] = out
+	}
+	confirmed := false
+	if o != nil && o.Result == "sat" {
+		if test, ok := tryReplay(eng, cs, o); ok {
+			rec["replay_test"] = test.Source
+			rec["replay_result"] = test.Result
+			rec["failing_input"] = test.Input
+			confirmed = test.Confirmed
+		}
+	}
+	rec["confirmed_on_real_code"] = confirmed
+	writeJSON(path, rec)
+	return confirmed
+}
+
+func writeEvidence(path, prop, tier string, seed int, pr *propRun, claims *claimFile, nObl, nDis, violations int, wall float64, eng *Engine) {
+	cov := map[string]any{}
+	cov["obligations"] = nObl
+	cov["discharged"] = nDis
+	cov["checker_cmd"] = fmt.Sprintf("/verif/bin/govc check -p %s -tier %s", prop, tier)
+	trusted := []string{"VC generator /verif/engine (govc)", "go/types (x/tools v0.29.0 loader)", "SMT solvers z3 5.1.0 / z3 4.8.12 / cvc5 1.0"}
+	assumptions := []string{}
+	if pr != nil {
+		var fns []map[string]any
+		byBackend := map[string]int{}
+		solverS := 0.0
+		var samples []map[string]any
+		var unclaimed []string
+		assumedSet := map[string]bool{}
+		asmSet := map[string]bool{}
+		inl := map[string]bool{}
+		claimed := map[string]bool{}
+		for _, c := range claims.Clauses {
+			claimed[c] = true
+		}
+		for _, fr := range pr.funcs {
+			nOK := 0
+			for _, o := range fr.Obls {
+				solverS += o.Secs
+				if o.Result == "unsat" {
+					nOK++
+					byBackend[o.Backend]++
+				}
+			}
+			fns = append(fns, map[string]any{"function": fr.Key, "obligations": len(fr.Obls), "discharged": nOK, "vacuity_guard": fr.Vacuity, "seconds": round2(fr.Secs), "outside_subset": fr.Unsupported})
+			for _, a := range fr.Assumed {
+				assumedSet[a] = true
+			}
+			for _, a := range fr.Assumptions {
+				asmSet[a] = true
+			}
+			for _, a := range fr.Inlined {
+				inl[a] = true
+			}
+			for i, o := range fr.Obls {
+				if i < 2 && len(samples) < 12 {
+					samples = append(samples, map[string]any{"obligation": o.Name, "kind": o.Kind, "clause": o.Src, "at": o.Pos, "answer": o.Result, "backend": o.Backend, "smt_bytes": len(o.Query)})
+				}
+			}
+		}
+		for _, lr := range pr.lemmaRes {
+			for _, o := range lr.Obls {
+				solverS += o.Secs
+				if o.Result == "unsat" {
+					byBackend[o.Backend]++
+				}
+				if len(samples) < 16 {
+					samples = append(samples, map[string]any{"obligation": o.Name, "kind": "lemma", "clause": o.Src, "answer": o.Result, "backend": o.Backend, "smt_bytes": len(o.Query)})
+				}
+			}
+		}
+		for _, name := range pr.order {
+			cs := pr.clauses[name]
+			if !claimed[name] {
+				unclaimed = append(unclaimed, fmt.Sprintf("%s (%d/%d discharged)", name, cs.Discharged, cs.Instances))
+			}
+		}
+		cov["functions_under_contract"] = fns
+		cov["by_backend"] = byBackend
+		cov["solver_seconds"] = round2(solverS)
+		cov["samples"] = samples
+		cov["claimed_clauses"] = len(claims.Clauses)
+		cov["generated_but_not_claimed"] = unclaimed
+		cov["inlined_without_contract"] = keysOf(inl)
+		var lem []string
+		for _, lr := range pr.lemmaRes {
+			lem = append(lem, fmt.Sprintf("%s: %d/%d", lr.Name, lr.Discharged, len(lr.Obls)))
+		}
+		cov["lemmas"] = lem
+		for _, a := range keysOf(assumedSet) {
+			trusted = append(trusted, "assumed contract: "+a)
+		}
+		assumptions = append(assumptions, keysOf(asmSet)...)
+	}
+	assumptions = append(assumptions, standingAssumptions(prop)...)
+	cov["trusted_base"] = trusted
+	ev := map[string]any{
+		"property_id": prop, "tier": tier, "seed": seed, "level": "proof",
+		"coverage": cov, "assumptions": assumptions, "wall_s": round2(wall), "violations": violations,
+	}
+	writeJSON(path, ev)
+}
+
+func round2(x float64) float64 { return float64(int(x*100+0.5)) / 100 }
+
+func keysOf(m map[string]bool) []string {
+	var out []string
+	for k := range m {
+		out = append(out, k)
+	}
+	sort.Strings(out)
+	return out
+}
+
+func standingAssumptions(prop string) []string {
+	return []string{
+		"A1 slice ownership: two live slices never write one backing array (contents have value semantics; capacity not modelled)",
+		"A2 caller-supplied callbacks (iteration functions, comparators, hash input providers) do not write atree-internal fields",
+		"integers are mathematical; every + - * and narrowing conversion carries a discharged no-wrap obligation (kind arith), later obligations are proved assuming earlier ones hold",
+		"termination is not proved",
+		"allocation failure, error message text, string contents, fmt side effects are not modelled",
+	}
+}
+
+func cmdSelftest(args []string) { runSelftest(args) }
